@@ -48,6 +48,18 @@ func callsValueOrField(v ssa.Value, via *types.Var) (ssa.Instruction, bool) {
 		if ci, ok := ref.(ssa.CallInstruction); ok && ci.Common().Value == v && via == nil {
 			return ci, true
 		}
+		// (the field read through a pure getter of the entry: p.getCancel()())
+		if gc, ok := ref.(*ssa.Call); ok && via != nil && len(gc.Call.Args) == 1 && gc.Call.Args[0] == v {
+			if ld, isLoad := ir.GetterLoad(gc).(*ssa.UnOp); isLoad && ssa.Value(ld) != ssa.Value(gc) {
+				if fa, isFA := ld.X.(*ssa.FieldAddr); isFA && ir.FieldVar(fa) == via {
+					for _, r3 := range *gc.Referrers() {
+						if ci, ok := r3.(ssa.CallInstruction); ok && ci.Common().Value == ssa.Value(gc) {
+							return ci, true
+						}
+					}
+				}
+			}
+		}
 		if fa, ok := ref.(*ssa.FieldAddr); ok && via != nil && ir.FieldVar(fa) == via {
 			for _, r2 := range *fa.Referrers() {
 				if ld, ok := r2.(*ssa.UnOp); ok {
@@ -147,6 +159,26 @@ func ruleStopCancelsTable(c *chk.Ctx, owner string, table *types.Var, via *types
 		return
 	}
 	c.Pass("TOKEN.stop", stop, what, good.Pos(), "every path from Close ranges over all of %s and invokes each entry's cancel", table.Name())
+	// and only the stop function does that: elsewhere an entry is cancelled one at a time, by its
+	// own key
+	inStop := map[*ssa.Function]bool{}
+	for _, g := range c.P.Ext(stop) {
+		inStop[g] = true
+	}
+	bad := ""
+	for _, g := range pkgFuncs(c, c.M.Pkg) {
+		if inStop[g] {
+			continue
+		}
+		for _, r := range rangesOverField(g, table) {
+			for _, v := range rangedValues(r) {
+				if _, ok := callsValueOrField(v, via); ok && bad == "" {
+					bad = c.P.Pos(r.Pos())
+				}
+			}
+		}
+	}
+	c.Check(bad == "", "TOKEN.stop", stop, what+": cancelled wholesale only at stop", stop.Pos(), "no function outside the stop function ranges over "+table.Name()+" invoking the entries' cancel functions", "outside the stop function the whole of "+table.Name()+" is ranged over and every entry cancelled (at "+bad+"): operations that are unrelated to the failing one, and whose own context is alive, would be completed with a cancellation error")
 }
 
 // ruleStopCancelsField: the stop function calls the cancel function stored in
